@@ -81,7 +81,7 @@ pub struct WrapCase {
     pub trivial: bool,
 }
 
-const SEPS: &[&str] = &[" ", "  ", "\n", " \t ", "\r\n", " <!--x--> ", "<!--x--> ", "<span></span> ", " <b></b>", "<em> </em>", "\u{a0}", " \u{a0}\n"];
+const SEPS: &[&str] = &[" ", "  ", "\n", " \t ", "\r\n", " <!--x--> ", "<!--x--> ", "<span></span> ", " <b></b>", "<em> </em>", "\u{a0}", " \u{a0}\n", "<span> </span>", "<span>\n</span>", "<u> </u>", "<strong><span> </span></strong>", "<font>\t</font>", "<span><span> </span></span>"];
 const TAGS: &[&str] = &["", "em", "strong", "code", "span", "a", "i", "u"];
 
 pub fn build_html(case: &WrapCase) -> String {
@@ -313,7 +313,7 @@ pub fn property() -> Property {
     Property {
         id: "C04",
         level: "exploration",
-        rule: "exhaustive: all sequences of <= 3 (quick) / <= 5 (thorough) words over an 11-word set covering display widths 1..7 with width-2 and width-0 characters at every position x widths 1..=9; random: <= 60 words (ASCII, punctuation, CJK, emoji, combining) with separators from 12 kinds (space runs, tab, CR LF, NBSP, comments, empty inline elements, whitespace inside <em>), the text cut at random character positions into inline elements (em/strong/code/span/a/i/u) and comment-split text nodes, width 1..=40, plain_no_decorate or trivial, optionally under max_wrap_width(m) or inside ul/ol/blockquote/dd; oracle: an independent 30-line greedy wrapper; line lists equal, Err <=> a character wider than the effective width. Non-trivial = >= 2 output lines or a hard-split word; distinct by (words, width, wrapper, cuts, separators).",
+        rule: "exhaustive: all sequences of <= 3 (quick) / <= 5 (thorough) words over an 11-word set covering display widths 1..7 with width-2 and width-0 characters at every position x widths 1..=9; random: <= 60 words (ASCII, punctuation, CJK, emoji, combining) with separators from 18 kinds (space runs, tab, CR LF, NBSP, comments, empty inline elements, whitespace alone inside <em>/<span>/<u>/<font>/nested spans), the text cut at random character positions into inline elements (em/strong/code/span/a/i/u) and comment-split text nodes, width 1..=40, plain_no_decorate or trivial, optionally under max_wrap_width(m) or inside ul/ol/blockquote/dd; oracle: an independent 30-line greedy wrapper; line lists equal, Err <=> a character wider than the effective width. Non-trivial = >= 2 output lines or a hard-split word; distinct by (words, width, wrapper, cuts, separators).",
         assumptions: vec!["words have display width >= 1 (a word of only zero-width characters is outside the stated domain)", "for prefixed blocks TooNarrow by the block's minimum-width estimate is accepted when the reference would wrap"],
         hang_is_violation: false,
         subs: vec![
